@@ -2,6 +2,7 @@
 from __future__ import annotations
 
 import ast
+import copy
 from collections import deque
 from typing import Dict, List, Optional, Set, Tuple
 
@@ -491,8 +492,17 @@ def times_typing(ctx):
     env = {"self.dynamics.time": time_tag}
     strided = []
     fn = ft.node
+    alias: Dict[str, ast.expr] = {}
+
+    class _Sub(ast.NodeTransformer):
+        def visit_Name(self, n):
+            return copy.deepcopy(alias[n.id]) if isinstance(n.ctx, ast.Load) and n.id in alias else n
     for s in fn.body:
         if isinstance(s, ast.Assign) and len(s.targets) == 1 and isinstance(s.targets[0], ast.Name):
+            if isinstance(s.value, (ast.Attribute, ast.Name)):          # `dynamics = self.dynamics`
+                alias[s.targets[0].id] = _Sub().visit(copy.deepcopy(s.value))
+                continue
+            s = _Sub().visit(copy.deepcopy(s))
             if isinstance(s.value, ast.Subscript) and isinstance(s.value.slice, ast.Slice) and s.value.slice.step is not None:
                 strided.append((s, tag_expr(s.value.value, env)))
                 env[s.targets[0].id] = tag_expr(s.value.value, env)
@@ -518,7 +528,7 @@ def final_frame_test(ctx, ft, strided_stmt):
     fn = ft.node
     sname = norm(strided_stmt.targets[0])
     full = norm(strided_stmt.value.value)
-    ifs = [n for n in own_nodes(fn) if isinstance(n, ast.If) and any(isinstance(r, ast.Return) for r in ast.walk(n))
+    ifs = [n for n in own_nodes(fn) if isinstance(n, ast.If)
            and (sname in {x.id for x in ast.walk(n.test) if isinstance(x, ast.Name)} or "%" in norm(n.test))]
     det = [norm(i.test) for i in ifs]
     ok = False
